@@ -26,7 +26,7 @@ ASSUMPTIONS = [
     "arguments are type-correct; composite helper convenience.replace_nodes_and_values is judged like any other public editing call",
 ]
 
-MULTI = {"extend", "ins_before", "ins_after", "remove", "io_extend", "io_setslice", "in_update", "c_rauw", "c_rename",
+MULTI = {"io_setslice3", "extend", "ins_before", "ins_after", "remove", "io_extend", "io_setslice", "in_update", "c_rauw", "c_rename",
          "c_rnv", "graph", "n_prepend", "n_append", "io_iadd"}
 
 
